@@ -368,6 +368,43 @@ func returnRows(c *Ctx, fn *ssa.Function) []siteRow {
 				}
 				return
 			}
+			// a result that is a phi of a dominating block (`err := check(); if err != nil { return err }` after check
+			// was expanded): one row per value it can have here, under the conditions of that value
+			phiAt := -1
+			for k := range ret.Results {
+				if phi, ok := retValue(ret, k).(*ssa.Phi); ok && phi.Block() != blk && isThreaded(phi.Block()) {
+					if phiAt >= 0 {
+						phiAt = -2
+						break
+					}
+					phiAt = k
+				}
+			}
+			if phiAt >= 0 {
+				cases := c.valueCases(retValue(ret, phiAt), blk)
+				allResolved := len(cases) > 1
+				for _, vc := range cases {
+					if _, still := vc.V.(*ssa.Phi); still {
+						allResolved = false
+					}
+				}
+				if allResolved {
+					for _, vc := range cases {
+						var vals []string
+						for k := range ret.Results {
+							if k == phiAt {
+								vals = append(vals, vc.E)
+							} else {
+								vals = append(vals, retExpr(c, ret, k))
+							}
+						}
+						conds := append([]string{}, vc.Guards...)
+						sort.Strings(conds)
+						emit(vals, uniq(conds))
+					}
+					return
+				}
+			}
 			var vals []string
 			for k := range ret.Results {
 				vals = append(vals, retExpr(c, ret, k))
